@@ -43,6 +43,9 @@ def scripted(answer, run):
 
     def fake(prompt=""):
         run.prompts.append(str(prompt))
+        if isinstance(answer, tuple):
+            # (answer to the first question, answer to all later ones)
+            return answer[0] if len(run.prompts) == 1 else answer[1]
         return answer
 
     builtins.input = fake
@@ -103,7 +106,8 @@ def _cli(tool, argv_fn):
         old = os.getcwd()
         os.chdir(wd)
         try:
-            res = cli.run_cli(tool, argv, answers=[answer])
+            res = cli.run_cli(tool, argv, answers=list(answer) if isinstance(
+                answer, tuple) else [answer])
         finally:
             os.chdir(old)
         r = Run()
@@ -239,6 +243,23 @@ def scenarios():
     add("evo_res:serialize_plot", _cli(
         "res", lambda t: rb + ["--serialize_plot", t]), "rp.ser", cost="plot",
         prepare=prep_res)
+    def prep_res_mixed(wd):
+        from evo import main_rpe
+        from evo.core import metrics
+        from evo.core.units import Unit
+        r = _result()
+        r.info["est_name"] = "estA"
+        fi.save_res_file(os.path.join(wd, "in0.zip"), r)
+        r2 = main_rpe.rpe(_traj(0), _traj(1),
+                          metrics.PoseRelation.translation_part, 1,
+                          Unit.frames)
+        r2.info["est_name"] = "estB"
+        fi.save_res_file(os.path.join(wd, "in1.zip"), r2)
+    # results of different metrics: evo_res first asks whether to go on
+    # despite mismatching titles, the overwrite question comes second
+    add("evo_res:save_table+title-question", _cli(
+        "res", lambda t: rb + ["--save_table", t]), "rt2.csv",
+        prepare=prep_res_mixed)
     # evo_config generate -o has no --no_warnings switch: always confirms
     add("evo_config:generate", _main_entry(
         "evo.main_config", lambda t, w: ["evo_config", "generate", "--align",
@@ -264,6 +285,8 @@ ALWAYS_CONFIRMS = {"evo_config:generate"}
 # evo_fig additionally asks whether to overwrite its *input* file
 EXTRA_PROMPT_TARGET = {"evo_fig:save_plot": "in.ser",
                        "evo_fig:serialize_plot": "in.ser"}
+# scenarios that ask one unrelated question *before* the overwrite question
+LEADING_QUESTION = {"evo_res:save_table+title-question"}
 
 
 def completeness_guard():
@@ -335,7 +358,12 @@ def run_history(name, pathtype, initial, history, wd=None):
             target = pathlib.Path(tgt) if pathtype == "path" else tgt
         else:
             target = target_rel
+        ow_answer = answer
+        if name in LEADING_QUESTION and warn:
+            # go on ('y') at the leading question, then the answer under test
+            answer = ("y", ow_answer)
         r = S["run"](wd, target, answer, warn)
+        answer = ow_answer
         after = snapshot_dir(wd)
         existed = [o for o in outputs if o in before]
         confirm = warn
@@ -347,6 +375,8 @@ def run_history(name, pathtype, initial, history, wd=None):
         n_own_prompts = len(r.prompts)
         if extra and warn:
             n_own_prompts -= 1  # the question about the input file
+        if name in LEADING_QUESTION and warn:
+            n_own_prompts -= 1  # the question about mismatching titles
         if confirm and existed:
             if n_own_prompts < 1:
                 msgs.append("%s: no confirmation was asked" % where)
